@@ -214,7 +214,7 @@ def _on_alarm(signum, frame):
 def run_one(mod, case):
     """Run one case; harness exceptions are re-raised as HarnessError with the
     case attached (never turned into a violation).  Modules that set RUN_TIMEOUT get a
-    wall-clock watchdog (SIGALRM interrupts pure-Python loops and the regex engine alike): a run
+    CPU-time watchdog (SIGVTALRM interrupts pure-Python loops and the regex engine alike): a run
     that exceeds it is a violation of class <PROP>:no-answer-within-<n>s, not a harness error."""
     if '_prior_runs' in case:
         # a violation that only shows after other runs of the same process (state kept in process-wide objects
@@ -228,15 +228,17 @@ def run_one(mod, case):
     if limit and 'twin' not in case and threading.current_thread() is threading.main_thread():
         # (scheduled twin runs are bounded by their deterministic step cap instead: frequent baton passing makes
         #  their wall-clock time a poor measure)
-        old_handler = signal.signal(signal.SIGALRM, _on_alarm)
-        signal.setitimer(signal.ITIMER_REAL, float(limit))
+        # CPU time of this process, not wall-clock: a machine that deschedules the worker for seconds must not
+        # turn into an alarm; an endless loop or a runaway regular expression burns CPU and is caught all the same
+        old_handler = signal.signal(signal.SIGVTALRM, _on_alarm)
+        signal.setitimer(signal.ITIMER_VIRTUAL, float(limit))
         armed = True
     try:
         res = mod.run_case(case)
     except RunTimeout:
         res = new_result()
         violation(res, f'{mod.PROP}:no-answer-within-{int(limit)}s',
-                  f'the request was not answered within {limit} s of wall-clock time (ordinary runs take milliseconds): '
+                  f'the request was not answered within {limit} s of CPU time (ordinary runs take milliseconds): '
                   f'endless loop or runaway computation')
         res['nontrivial'] = True
         res['fired']['watchdog'] += 1
@@ -254,8 +256,8 @@ def run_one(mod, case):
         raise HarnessError(f'run_case raised {type(e).__name__}: {e}\n{tb}\ncase={json.dumps(case, default=_json_default)[:2000]}') from None
     finally:
         if armed:
-            signal.setitimer(signal.ITIMER_REAL, 0)
-            signal.signal(signal.SIGALRM, old_handler)
+            signal.setitimer(signal.ITIMER_VIRTUAL, 0)
+            signal.signal(signal.SIGVTALRM, old_handler)
     if res['digest'] is None:
         raise HarnessError('run_case returned no digest')
     return res
